@@ -1570,6 +1570,42 @@ func (fx *Facts) nilTestReturned(e ssa.Value) bool {
 	return false
 }
 
+// verdictFormedByHelper: e (or an alias) is handed to a module function that compares the corresponding parameter with
+// nil, and what that function returns is returned here (`return stepFailed(logic(), errorFunc)`): the verdict is
+// formed there.
+func (fx *Facts) verdictFormedByHelper(e ssa.Value) bool {
+	for _, a := range fx.aliasesOf(e) {
+		for _, ref := range nonDebugRefs(a) {
+			c, ok := ref.(*ssa.Call)
+			if !ok {
+				continue
+			}
+			g := calleeOf(c)
+			if g == nil || g.Blocks == nil || g.Pkg == nil || !isModulePath(g.Pkg.Pkg.Path()) {
+				continue
+			}
+			returned := false
+			for _, r2 := range nonDebugRefs(c) {
+				if _, isR := r2.(*ssa.Return); isR {
+					returned = true
+				}
+			}
+			if !returned {
+				continue
+			}
+			for i, arg := range c.Call.Args {
+				if arg != a || i >= len(g.Params) {
+					continue
+				}
+				if _, tested := fx.errBranches(g.Params[i]); tested {
+					return true
+				}
+			}
+		}
+	}
+	return false
+}
+
 // liftToCaller: the call c sits in an unexported module helper (not a closure, never used as a value) that is called
 // from exactly one place; follow such single call sites up to a call inside fn (three levels). nil if c cannot be
 // attributed to a single call in fn this way; c itself if it already is in fn.
